@@ -43,6 +43,7 @@ var (
 	byteForByte    int64
 	untypedSkipped int64
 	shortUdt       int64
+	shortUdtReused int64 // decodes of a short udt value into a pre-filled destination that were judged
 )
 
 // orderFree reports whether the specification leaves the bytes of the value partly open: a map
@@ -161,10 +162,18 @@ func probe(cs cqlgen.Case) *cqlgen.Failure {
 }
 
 // shortUdtProbe: §6 "it is allowed to have less values than the type has fields". The reference
-// serializes the udt value without its last `drop` fields; the library must decode that to the
-// value with those fields NULL.
-func shortUdtProbe(cs cqlgen.Case, drop int, r *mon.Rand) (cqlgen.Case, *cqlgen.Failure) {
-	t, v := cs.Type, cs.Value
+// serializes the udt value without its last `drop` fields; the library must decode that exactly
+// like the full-length encoding with explicit NULLs (length -1) for those fields:
+//
+//	fresh destinations: *interface{} / map[string]interface{} (every declared field present, the
+//	  omitted ones nil), a struct, []interface{}, and the case's own representation;
+//	pre-filled destinations of the same shapes (filled by decoding a value with non-NULL fields):
+//	  the omitted fields must be overwritten with NULL / zero, as an explicit NULL field is.
+//
+// A pre-filled decode is only judged when the full-length encoding passes in the same situation,
+// so that what is reported is specific to the omitted fields.
+func shortUdtProbe(cs cqlgen.Case, drop int, r *mon.Rand) (out []shortFail) {
+	t, v, ver := cs.Type, cs.Value, cs.Version
 	n := len(t.Elems)
 	// copies: the case's value is shared with other goroutines and must not be appended to
 	short := cqlref.SeqValue(append([]*cqlref.Value{}, v.Elems[:n-drop]...)...)
@@ -172,24 +181,119 @@ func shortUdtProbe(cs cqlgen.Case, drop int, r *mon.Rand) (cqlgen.Case, *cqlgen.
 	for i := 0; i < drop; i++ {
 		full.Elems = append(full.Elems, cqlref.NullValue())
 	}
-	ref, err := cqlref.Serialize(t, short, cs.Version)
+	shortBytes, err := cqlref.Serialize(t, short, ver)
 	if err != nil {
-		return cs, &cqlgen.Failure{Stage: "harness", Key: "harness/reference-serialize", Msg: err.Error()}
+		return []shortFail{{cs, &cqlgen.Failure{Stage: "harness", Key: "harness/reference-serialize", Msg: err.Error()}}}
 	}
-	sc := cs
-	// the case's own representation when it can hold the NULLs, else a deterministic universal one
-	// (drawing a fresh representation per case would create Go types without bound)
-	rep := cs.Repr
-	if !cqlgen.Fits(rep, t, full) {
-		rep = cqlgen.Universal(t)
+	fullBytes, err := cqlref.Serialize(t, full, ver)
+	if err != nil {
+		return []shortFail{{cs, &cqlgen.Failure{Stage: "harness", Key: "harness/reference-serialize", Msg: err.Error()}}}
 	}
-	sc.Value, sc.Repr, sc.Origin = full, rep, "udt-with-fewer-values"
-	f := decodeProbe(sc, ref)
-	if f != nil {
-		f.Key = "udt/decode/fewer-values-than-fields"
-		f.Msg = fmt.Sprintf("udt value with %d of %d fields (spec §6 allows fewer values than fields): %s", n-drop, n, f.Msg)
+	codec, _, err := cqlgen.Codec(t)
+	if err != nil {
+		return []shortFail{{cs, &cqlgen.Failure{Stage: "new-codec", Msg: err.Error()}}}
 	}
-	return sc, f
+	// shapes: deterministic functions of the type (no unbounded creation of Go types)
+	type shaped struct {
+		name string
+		rep  *cqlgen.Repr
+	}
+	shapes := []shaped{{"struct", cqlgen.Universal(t)}}
+	if cqlgen.Fits(cs.Repr, t, full) {
+		shapes = append(shapes, shaped{"case-representation:" + cs.Repr.Class(), cs.Repr})
+	}
+	if !cqlgen.PreferredKeyUnhashable(t) {
+		perField := &cqlgen.Repr{K: cqlgen.RSlice, PerField: true}
+		for _, ft := range t.Elems {
+			perField.Sub = append(perField.Sub, cqlgen.Iface(cqlgen.Universal(ft)))
+		}
+		shapes = append(shapes, shaped{"map[string]interface{}", cqlgen.Preferred(t)}, shaped{"[]interface{}", perField})
+	}
+	fail := func(sh shaped, how, msg string) {
+		sc := cs
+		sc.Value, sc.Repr, sc.Origin = full, sh.rep, "udt-with-fewer-values"
+		out = append(out, shortFail{sc, &cqlgen.Failure{Stage: "decode", Key: "udt/decode/fewer-values-than-fields/" + sh.name + "/" + how,
+			Msg:    fmt.Sprintf("udt value with %d of %d fields (spec §6 allows fewer values than fields), destination %s: %s", n-drop, n, sh.rep, msg),
+			RefHex: cqlgen.Hex(shortBytes)}})
+	}
+	// decode runs one decode of b into a destination of representation rep, optionally pre-filled
+	// by decoding pre first, and returns the description of the difference with `full` ("" = none)
+	decode := func(rep *cqlgen.Repr, pre, b []byte) (problem string, prefilled bool) {
+		dest, eff, val := cqlgen.TopDest(rep)
+		if pre != nil {
+			if _, err, pan := cqlgen.SafeDecode(codec, pre, dest, ver); err != nil || pan != "" {
+				return "", false
+			}
+		}
+		wasNull, err, pan := cqlgen.SafeDecode(codec, b, dest, ver)
+		switch {
+		case pan != "":
+			return "panic: " + pan, true
+		case err != nil:
+			return "Decode error: " + err.Error(), true
+		case wasNull:
+			return "wasNull=true", true
+		}
+		if err := cqlgen.MatchReused(eff, t, full, val); err != nil {
+			return err.Error(), true
+		}
+		return "", true
+	}
+	for _, sh := range shapes {
+		if p, _ := decode(sh.rep, nil, shortBytes); p != "" {
+			if q, _ := decode(sh.rep, nil, fullBytes); q == "" {
+				fail(sh, "fresh-destination", p)
+			}
+			continue // the full-length encoding fails the same way: not specific to omitted fields
+		}
+		// pre-filled: a value of the same shape whose omitted fields are not NULL
+		filler := cqlgen.Refill(r, sh.rep, t, full, ver)
+		pre, err := cqlref.Serialize(t, filler, ver)
+		if err != nil || !cqlgen.Fits(sh.rep, t, filler) {
+			continue
+		}
+		p, ok := decode(sh.rep, pre, shortBytes)
+		if !ok || p == "" {
+			if ok {
+				atomic.AddInt64(&shortUdtReused, 1)
+			}
+			continue
+		}
+		if q, _ := decode(sh.rep, pre, fullBytes); q == "" {
+			fail(sh, "prefilled-destination-missing-field-not-null", p+"; destination pre-filled with "+clipStr(cqlref.Format(t, filler), 300))
+		}
+	}
+	// the untyped destination: *interface{} must receive map[string]interface{} with every field
+	if !cqlgen.PreferredKeyUnhashable(t) {
+		var any interface{}
+		wasNull, err, pan := cqlgen.SafeDecode(codec, shortBytes, &any, ver)
+		sh := shaped{"*interface{}", cqlgen.Preferred(t)}
+		switch {
+		case pan != "":
+			fail(sh, "fresh-destination", "panic: "+pan)
+		case err != nil:
+			fail(sh, "fresh-destination", "Decode error: "+err.Error())
+		case wasNull || any == nil:
+			fail(sh, "fresh-destination", fmt.Sprintf("wasNull=%v value=%v", wasNull, any))
+		case reflect.TypeOf(any) == sh.rep.GoType():
+			if err := cqlgen.Match(sh.rep, t, full, reflect.ValueOf(any)); err != nil {
+				fail(sh, "fresh-destination", err.Error())
+			}
+		}
+	}
+	return out
+}
+
+type shortFail struct {
+	cs cqlgen.Case
+	f  *cqlgen.Failure
+}
+
+func clipStr(s string, n int) string {
+	if len(s) > n {
+		return s[:n] + "..."
+	}
+	return s
 }
 
 type golden struct {
@@ -342,8 +446,8 @@ func run(c *mon.Ctx) {
 			r := mon.NewRand(c.Seed, uint64(cs.Index)<<1)
 			drop := 1 + r.Intn(len(cs.Type.Elems)-1)
 			atomic.AddInt64(&shortUdt, 1)
-			if sc, f := shortUdtProbe(cs, drop, r); f != nil {
-				report(sc, f)
+			for _, sf := range shortUdtProbe(cs, drop, r) {
+				report(sf.cs, sf.f)
 			}
 		}
 	}
@@ -393,6 +497,7 @@ func run(c *mon.Ctx) {
 	c.Count("encode_refused_not_judged", atomic.LoadInt64(&encodeRefused))
 	c.Count("untyped_decode_skipped_no_go_type_for_preferred", atomic.LoadInt64(&untypedSkipped))
 	c.Count("udt_values_with_fewer_values_than_fields", atomic.LoadInt64(&shortUdt))
+	c.Count("udt_fewer_values_decoded_into_prefilled_destination", atomic.LoadInt64(&shortUdtReused))
 	if atomic.LoadInt64(&structural) == 0 || atomic.LoadInt64(&byteForByte) == 0 {
 		c.Inconclusive("one of the two comparison modes was never used")
 	}
